@@ -41,6 +41,9 @@ func concToken(nblocks int, emb int64) (*biscuit.Biscuit, []byte, error) {
 	b.AddAuthorityFact(biscuit.Fact{Predicate: biscuit.Predicate{Name: "right", IDs: []biscuit.Term{biscuit.String("file1"), biscuit.String("read")}}})
 	b.AddAuthorityRule(biscuit.Rule{Head: biscuit.Predicate{Name: "can", IDs: []biscuit.Term{biscuit.Variable("f")}},
 		Body: []biscuit.Predicate{{Name: "right", IDs: []biscuit.Term{biscuit.Variable("f"), biscuit.String("read")}}}})
+	// the length of the stored authority bytes varies with the case, and with it the spare capacity the allocator leaves behind
+	// them after Unmarshal (0 .. >100 bytes): code that writes behind the stored bytes "when it fits" gets its chance
+	b.SetContext(strings.Repeat("x", int(emb%97)*13))
 	tok, err := b.Build()
 	if err != nil {
 		return nil, nil, err
